@@ -469,6 +469,99 @@ func doSampleCmd(c *core.Ctx, format string, k int, replace bool, seed int64, n,
 	emit(script, draws, class, res)
 }
 
+// pruneOut runs `gotree prune` and returns the class and the tip names of every output tree.
+func pruneOut(c *core.Ctx, args ...string) (string, [][]string) {
+	r := c.RunCLI("", 20*time.Second, args...)
+	switch {
+	case r.Timeout:
+		return "timeout", nil
+	case r.Exit == 2 && strings.Contains(r.Stderr, "panic:"):
+		return "panic", nil
+	case r.Exit != 0:
+		return "exit" + itoa(r.Exit), nil
+	}
+	var outs [][]string
+	for _, l := range strings.Split(strings.TrimRight(r.Stdout, "\n"), "\n") {
+		out, perr := newick.NewParser(strings.NewReader(l)).Parse()
+		if perr != nil {
+			return "unparsable", nil
+		}
+		outs = append(outs, tipNames(out))
+	}
+	return "ok", outs
+}
+
+// doPruneRange: `gotree prune --random k [-r]` for any integer k (the whole range, also k <= 0 and k >= n-2).
+func doPruneRange(c *core.Ctx, seed int64, n *core.N, k int, keep bool) {
+	t, err := core.Build(n)
+	if err != nil {
+		panic(err)
+	}
+	names := n.TipNames()
+	var script []int
+	if k > 0 {
+		script = resScript(k, len(names))
+	}
+	draws, _ := replay(seed, script)
+	sd := strconv.FormatInt(seed, 10)
+	args := []string{"prune", "-i", c.TmpFile(t.Newick() + "\n"), "--random", itoa(k), "--seed", sd}
+	if keep {
+		args = append(args, "-r")
+	}
+	class, outs := pruneOut(c, args...)
+	var sel []string
+	if class == "ok" && len(outs) == 1 {
+		left := map[string]bool{}
+		for _, nm := range outs[0] {
+			left[nm] = true
+		}
+		for _, nm := range names {
+			if left[nm] == keep {
+				sel = append(sel, nm)
+			}
+		}
+	} else if class == "ok" {
+		class = "ntrees" + itoa(len(outs))
+	}
+	c.Emit("C20.prunerange", sd, n.Dump(), itoa(k), b2s(keep), core.IntList(script), core.IntList(draws), class, core.StrList(sel))
+}
+
+// doPruneFile: `gotree prune --random k` on a file of several trees.
+func doPruneFile(c *core.Ctx, seed int64, ns []*core.N, k int) {
+	var script []int
+	var file strings.Builder
+	for _, n := range ns {
+		t, err := core.Build(n)
+		if err != nil {
+			panic(err)
+		}
+		script = append(script, resScript(k, len(n.TipNames()))...)
+		file.WriteString(t.Newick() + "\n")
+	}
+	draws, _ := replay(seed, script)
+	sd := strconv.FormatInt(seed, 10)
+	class, outs := pruneOut(c, "prune", "-i", c.TmpFile(file.String()), "--random", itoa(k), "--seed", sd)
+	var sels [][]string
+	if class == "ok" && len(outs) == len(ns) {
+		for i, n := range ns {
+			left := map[string]bool{}
+			for _, nm := range outs[i] {
+				left[nm] = true
+			}
+			var sel []string
+			for _, nm := range n.TipNames() {
+				if !left[nm] {
+					sel = append(sel, nm)
+				}
+			}
+			sels = append(sels, sel)
+		}
+	} else if class == "ok" {
+		class = "ntrees" + itoa(len(outs))
+	}
+	c.Emit("C20.prunefile", sd, core.Dumps(ns), itoa(k), core.IntList(script), core.IntList(draws), class, core.StrLists(sels))
+}
+
 // doPruneCmd: the option priorities of `gotree prune` (-f > -c > --random > arguments).
 // tipfile / comp: nil = option absent; comp = the tips of the compared tree (written as a star tree).
 func doPruneCmd(c *core.Ctx, seed int64, n *core.N, random int, args, tipfile, comp []string) {
@@ -1253,6 +1346,18 @@ func Replay(c *core.Ctx, lines []string) {
 			doRotAll(c, num64(1), tr(2))
 		case "C20.samplecmd":
 			doSampleCmd(c, at(1), num(2), at(3) == "1", num64(4), num(5), num(6), at(7) == "1")
+		case "C20.prunerange":
+			doPruneRange(c, num64(1), tr(2), num(3), at(4) == "1")
+		case "C20.prunefile":
+			var ns []*core.N
+			for _, dd := range strings.Split(strings.TrimSuffix(at(2), "|"), "|") {
+				n, err := core.ParseDump(dd)
+				if err != nil {
+					panic(err)
+				}
+				ns = append(ns, n)
+			}
+			doPruneFile(c, num64(1), ns, num(3))
 		case "C20.prunecmd":
 			lst := func(i int) []string {
 				if at(i) == "-" {
@@ -1441,6 +1546,31 @@ func Run(c *core.Ctx) {
 			{"newick", -1, false, 4, -1, true}, {"newick", -2, true, 4, -1, true},
 		} {
 			doSampleCmd(c, f.format, f.k, f.replace, seed(), f.n, f.bad, f.opened)
+		}
+		// prune --random k [-r] through the command for every k: <= 0, 1, n-3 … n+2 (rooted and unrooted)
+		for q := 0; q < c.Scale(2, 20); q++ {
+			o := treeOpts(g)
+			o.MinTips, o.MaxTips = 5, 9
+			o.Rooted = q % 2
+			t, _ := g.Tree(o)
+			core.NumberEdges(t)
+			nt := len(t.TipNames())
+			for _, k := range []int{-1, 0, 1, nt - 3, nt - 2, nt - 1, nt, nt + 1, nt + 2} {
+				doPruneRange(c, seed(), t, k, false)
+				doPruneRange(c, seed(), t, k, true)
+			}
+		}
+		// … and on files of several trees
+		for q := 0; q < c.Scale(4, 60); q++ {
+			var ns []*core.N
+			for z := 2 + g.Intn(2); z > 0; z-- {
+				o := treeOpts(g)
+				o.MinTips = 6
+				t, _ := g.Tree(o)
+				core.NumberEdges(t)
+				ns = append(ns, t)
+			}
+			doPruneFile(c, seed(), ns, 1+g.Intn(3))
 		}
 		m := c.Scale(110, 2500)
 		for i := 0; i < m; i++ {
